@@ -70,6 +70,15 @@ def cut_patterns(ck: Check, session: nb.Session, L: int):
     for f in session.frames:
         pos += 3 + len(f.real)
         bounds.append(pos)
+    if L > 5000:
+        # a session with a huge frame: every pattern costs a pass over the whole stream on both sides; keep the cuts that
+        # matter - one chunk, MTU-sized chunks, frame aligned, single cuts around every frame boundary and header byte
+        pats = [(), tuple(range(1460, L, 1460)), tuple(b for b in bounds if 0 < b < L)]
+        near = sorted({c for b in bounds for c in (b - 1, b, b + 1, b + 2, b + 3, b + 4) if 0 < c < L})
+        pats += [(c,) for c in near] + [(rng.randrange(1, L),) for _ in range(4)]
+        if thorough:
+            pats += [tuple(sorted(rng.sample(near, 2))) for _ in range(10)]
+        return pats
     pats = [(), tuple(range(1, L))]  # one chunk; byte by byte
     singles = range(1, L) if (thorough or L < 260) else sorted(
         {c for b in bounds for c in range(b - 4, b + 5) if 0 < c < L} | set(range(1, 12)) | {rng.randrange(1, L) for _ in range(40)})
